@@ -25,6 +25,64 @@ func checkC18(w *World, r *Report) {
 	c18Codec(w, r)
 	c18Compressors(w, r)
 	c18Wiring(w, r)
+	c18CopyPaths(w, r)
+}
+
+// c18CopyPaths: io.Copy uses the chunk-sized transfer the stream types implement.
+func c18CopyPaths(w *World, r *Report) {
+	ob := r.Ob("C18.g", "g-copy-uses-stream-methods", "at every io.Copy / io.CopyBuffer of the module whose source (destination) is a value of a module type that declares WriteTo (ReadFrom) on the type or on its pointer, the value handed to io.Copy has that method in its method set", "io.Copy falls back to Read with a 32 KiB scratch buffer when the source does not offer WriteTo: the snapshot Reader's Read refuses a chunk larger than the buffer (io.ErrShortBuffer) - a table whose stream has chunks above 32 KiB can no longer be backed up; the value/pointer receiver decides, and the compiler does not complain")
+	n := 0
+	check := func(in ssa.Instruction, v ssa.Value, method, role string) {
+		for d := 0; d < 3; d++ {
+			if ci, ok := v.(*ssa.ChangeInterface); ok {
+				v = ci.X
+			}
+		}
+		mi, ok := v.(*ssa.MakeInterface)
+		if !ok {
+			return
+		}
+		dyn := mi.X.Type()
+		base := dyn
+		if pt, ok := base.(*types.Pointer); ok {
+			base = pt.Elem()
+		}
+		nt, ok := base.(*types.Named)
+		if !ok || nt.Obj().Pkg() == nil || !strings.HasPrefix(nt.Obj().Pkg().Path(), modPath) {
+			return
+		}
+		has := func(t types.Type) bool {
+			return w.Prog.MethodSets.MethodSet(t).Lookup(nil, method) != nil
+		}
+		if !has(nt) && !has(types.NewPointer(nt)) {
+			return
+		}
+		n++
+		ob.Site(in.Pos(), "io.Copy "+role+" "+typeString(dyn)+" ("+method+")")
+		if !has(dyn) {
+			ob.Violate("copy-fast-path-lost@"+FnName(in.Parent()), in.Pos(), "io.Copy is given a "+typeString(dyn)+" as "+role+": "+method+" is declared on the other receiver kind and is not in this value's method set, so the copy falls back to Read/Write with a 32 KiB buffer")
+		}
+	}
+	for _, fn := range w.ModFuncs() {
+		if isGenerated(fn) {
+			continue
+		}
+		eachInstr(fn, func(in ssa.Instruction) {
+			c := plainCall(in)
+			if c == nil {
+				return
+			}
+			switch CalleeName(c) {
+			case "io.Copy", "io.CopyBuffer":
+				check(in, c.Args[1], "WriteTo", "source")
+				check(in, c.Args[0], "ReadFrom", "destination")
+			}
+		})
+	}
+	if n == 0 {
+		ob.Undecided("shape", "no io.Copy over a module stream type found")
+	}
+	ob.NeedFloor(3)
 }
 
 func c18Framing(w *World, r *Report) {
